@@ -412,6 +412,7 @@ def moved(tree, n0, wt=False):
 class St:
     pass
 
+@rc.guard_build
 class Single(System):
     name = 'c05.single'
     nontrivial_per_config = True
@@ -583,6 +584,7 @@ def xpat(name, k):
 SET_KINDS = ('P', 'S', 'Y', 'item', 'slice')
 
 
+@rc.guard_build
 class Sets(System):
     name = 'c05.sets'
     tier = 'thorough'
@@ -722,6 +724,7 @@ class Sets(System):
         match = dict(target=tk, tagged=tag != 'none', basis='wt' if wt else 'mol', kind=kind, route=route)
         try:
             obj, tree, rx = self._make(st.config, Xs)
+        except Violation: raise
         except Exception as e:
             raise Violation('unexpected-exception', f'building the set: {type(e).__name__}: {e}',
                             match=dict(match, exc=type(e).__name__, where='build'))
@@ -759,6 +762,7 @@ class Sets(System):
 # ---------------------------------------------------------------------------------------------------------
 # layer 1c: stoichiometries completed by the library (correct_atomic_balance)
 
+@rc.guard_build
 class Balance(System):
     """The stoichiometry is written with WRONG magnitudes (every coefficient that is to be solved is written as +-1) and completed by
     `correct_atomic_balance`: through the constructor flag, through the method with its default (the reactant is held constant), and
@@ -812,12 +816,13 @@ class Balance(System):
         st.error = None
         try:
             if mode == 'ctor':
-                st.rxn = t.Reaction(rc.as_string(written, st.tagmap), reactant=r, X=1.0, chemicals=chems, correct_atomic_balance=True)
+                st.rxn = rc.build_reaction(rc.as_string(written, st.tagmap), r, 1.0, chems, correct_atomic_balance=True)
             else:
-                st.rxn = t.Reaction(rc.as_string(written, st.tagmap), reactant=r, X=1.0, chemicals=chems)
+                st.rxn = rc.build_reaction(rc.as_string(written, st.tagmap), r, 1.0, chems)
                 if when == 'wt-before': st.rxn.basis = 'wt'
                 if mode == 'default': st.rxn.correct_atomic_balance()
                 else: st.rxn.correct_atomic_balance(list(cs))
+        except Violation: raise
         except Exception as e:
             st.rxn = None; st.error = f'{type(e).__name__}: {e}'
         st.last = None; st.moved = False
@@ -881,6 +886,7 @@ HIST_RXNS = [
     ('P', ((0, 'H2'), (4, 'Ethanol')), 'nat'),
 ]
 
+@rc.guard_build
 class History(System):
     """mode 'members': one reaction object reused on three targets, conversions / basis changed in between, members of a set mutated
                        after the set was built
